@@ -463,6 +463,7 @@ R03E_OVERRIDES = {
     "_shuffle.SetIndex": "refuses predicates on the index and a new index given as a separate collection (R03g)",
     "_shuffle.ShuffleBase": "refuses a key given as a separate collection (R03g), otherwise the generic test",
     "io.parquet.ReadParquet": "reader translation gate (R03a)",
+    "_merge_asof.MergeAsof": "refuses every relocation (an asof join pairs each left row with its nearest right row; the rule inherited from Merge reads `how`, which this class does not have)",
 }
 
 
